@@ -14,7 +14,7 @@ META = dict(
               "abstract queue and store beside the observed trace. Tie: generated server<> instantiations with queue sizes "
               "none / 0 / 10 / 32 / 142, two and three connections, three link states, interleaved prepare / execute / write / "
               "disconnect",
-    level_note="proved (unbounded: histories of any length from any of the connections, every PDU, every configuration without a write handler, no wf needed): the server refines the abstract queue option (owner, list (handle, offset, bytes)) with byte capacity - exact responses of every Prepare / Execute Write (order, first failing write and its error code, cancel, release on execute / cancel / disconnect, Prepare Queue Full for other clients and for elements that do not fit, accepted iff a Write Request is permitted) and exact content of the bound variables; direct theorems (a) (c) (d) for every configuration. Refuted with witness for configurations with write handlers (the probe of Prepare Write calls the handler: known finding). Memory safety (FAULT) is C01's clause. See docs/C07.md")
+    level_note="proved (unbounded: histories of any length from any of the connections, every PDU, no wf needed): for EVERY configuration the server refines the abstract queue option (owner, list (handle, offset, bytes)) with byte capacity in all responses of Prepare / Execute Write (order, first failing write and its error code, cancel, release on execute / cancel / disconnect, Prepare Queue Full for other clients and for elements that do not fit, accepted iff a Write Request is permitted) and in the content of all bound variables (C07_refines_abstract_queue_with_handlers); for configurations without write handlers additionally in the handler call counters (full monitor). With write handlers the one difference is stated exactly: the probe of Prepare Write calls the handler once with an empty write at offset 0 and changes nothing else (C07_probe_calls_handler_once; known finding; the full statement is refuted with a witness). Direct theorems (a) (c) (d) for every configuration. Memory safety (FAULT) is C01's clause. See docs/C07.md")
 
 
 class C07(AttBase):
